@@ -2,6 +2,7 @@
    (Shrinking concerns the unbounded queue, which M-BE does not model yet: not covered here.) *)
 From Coq Require Import List NArith Bool.
 From Quill Require Import Queue.BQDefs Backend.BEDefs Backend.BEInv Backend.BECount Backend.BECtx TieC20.
+From Quill Require Backend.BEUnreg Backend.BEInv.
 From Quill Require TieCtx.
 Import ListNotations.
 Local Open Scope N_scope.
@@ -62,3 +63,21 @@ Theorem C20_wrap_refuted_with_8_bits :
   ndead (th s32) (registered s32) = 256 /\ invalid_cnt s32 = 256.
 Proof. vm_compute. repeat split; reflexivity. Qed.
 Print Assumptions C20_wrap_refuted_with_8_bits.
+
+(* a thread without a registered context - it never registered, or it exited and its context was reclaimed -
+   holds nothing: queue and transit buffer are empty and everything it committed has been processed; for
+   every configuration and every interleaving *)
+Theorem C20_reclaimed_lost_nothing : forall K s0 ops,
+  (forall t, fresh_thr (th s0 t) /\ issued s0 t = [] /\ delivered s0 t = []) -> pos_ops ops ->
+  let s := run K s0 ops in
+  forall t, ~ In t (registered s) ->
+    qev (th s t) = [] /\ tbuf (th s t) = [] /\ issued s t = delivered s t.
+Proof.
+  intros K s0 ops H0 Hp s t Hn.
+  assert (P0 : Backend.BEUnreg.PU s0) by (intro u; right; destruct (H0 u) as ((v & ->) & _); split; reflexivity).
+  destruct (Backend.BEUnreg.run_pu K ops s0 P0 t) as [Hin|[A B]]; [contradiction|].
+  split; [exact A|]. split; [exact B|].
+  pose proof (be_conservation K s0 ops H0 Hp t) as Hc. cbv zeta in Hc. fold s in Hc. unfold s in A, B. fold s in A, B.
+  rewrite A, B in Hc. cbn in Hc. now rewrite app_nil_r in Hc.
+Qed.
+Print Assumptions C20_reclaimed_lost_nothing.
